@@ -199,6 +199,11 @@ func importResource(source map[string]any, target map[string]any, key string) er
 			return fmt.Errorf("%s must be a mapping", key)
 		}
 		for name, a := range resources {
+			if config, ok := a.(map[string]any); ok && key == "configs" && config["environment"] != nil {
+				// content was filled in from the environment when the included model was loaded: the including
+				// model only declares the variable, and resolves it again itself
+				delete(config, "content")
+			}
 			if conflict, ok := to[name]; ok {
 				if reflect.DeepEqual(a, conflict) {
 					continue
